@@ -5,8 +5,8 @@
    over an arbitrary classification of word characters and digits.  The parse-level statement
    relates the two parser models textX builds for one grammar (autokwd off / on), as dumped by
    tools/pegdump.py, for EVERY pair of tables, text, oracles, fuel and memoization setting. *)
-From TxV Require Import Core.Base Model.PegSyntax Model.Peg Model.KwDefs Gen.SrcKw Model.Kw
-     Proofs.PegCongr Proofs.PegInv Proofs.KwProofs Proofs.KwCheckProofs Proofs.KwInv Proofs.KwWitness Proofs.KwStatements.
+From TxV Require Import Core.Base Model.PegSyntax Model.Peg Model.Build Model.KwDefs Gen.SrcKw Model.Kw
+     Proofs.PegCongr Proofs.PegInv Proofs.KwProofs Proofs.KwCheckProofs Proofs.KwInv Proofs.KwBuild Proofs.KwModel Proofs.KwWitness Proofs.KwStatements.
 
 (* (0) The facts of the current source are the ones the model transcribes. *)
 Theorem C21_source_is_modelled :
@@ -99,6 +99,35 @@ Theorem C21_same_model : forall wordc digitc lower g g' cfg orc orc' memo fuel i
   run g' cfg orc' memo fuel input = foutcome (kw_supf g g') (run g cfg orc memo fuel input).
 Proof. exact autokwd_same_model. Qed.
 Print Assumptions C21_same_model.
+
+(* (4'') The same for the constructed model (Model/Build.v on the dumped metamodel table [mm], which is the
+   same for both settings - checked per case on the two mmdumps): if moreover the replaced StrMatches are
+   case-sensitive ones (no ignore_case: with it the value of a keyword is the grammar's spelling without and the
+   input's spelling with autokwd - the known finding) and rule names / separators agree in the two tables, then
+   an input accepted without autokwd is accepted with it and model construction yields the IDENTICAL object
+   graph: classes, attributes, values, positions.  (use_regexp_group=False.) *)
+Theorem C21_same_model_objects : forall wordc digitc lower g g' cfg orc orc' memo fuel input mm grp grp' auto r,
+  (forall a b, lower a = lower b -> wordc a = wordc b) ->
+  kw_tables_spec wordc digitc lower g g' input orc orc' ->
+  no_glued_keyword wordc digitc lower g input ->
+  replaced_are_exact g g' -> meta_same g g' ->
+  run g cfg orc memo fuel input = Parsed r ->
+  run g' cfg orc' memo fuel input = Parsed (fr (kw_supf g g') r) /\
+  build g' mm input grp' auto false (fr (kw_supf g g') r) = build g mm input grp auto false r.
+Proof. exact autokwd_same_objects. Qed.
+Print Assumptions C21_same_model_objects.
+
+Example C21_same_model_objects_nonvacuous :
+  kw_case_ok ascii_word ascii_digit ascii_lower in_in1 tbl_in1_plain tbl_in1_kw g_in_plain g_in_kw = true /\
+  no_glue_ok ascii_word ascii_digit ascii_lower in_in1 g_in_plain = true /\
+  replaced_are_exact g_in_plain g_in_kw /\
+  exists r v,
+    run g_in_plain cfg_default (orc_of tbl_in1_plain) false 50 in_in1 = Parsed r /\
+    build g_in_plain mm_in in_in1 no_grp true false r = BOk v /\
+    build g_in_kw mm_in in_in1 no_grp true false (fr (kw_supf g_in_plain g_in_kw) r) = BOk v /\
+    v = VObj [77;111;100;101;108]%N 0 5 [([120]%N, VTerm [73;68]%N [120]%N); ([121]%N, VDefault [73;68]%N)].
+Proof. exact stmt_C21_same_model_objects_nonvacuous. Qed.
+Print Assumptions C21_same_model_objects_nonvacuous.
 
 (* (4') The decidable instance checks the harness evaluates per case are sound: when [kw_case_ok]
    (the two dumped tables are related as above and the oracle rows Python computed for the keyword
